@@ -577,6 +577,33 @@ def add_form():
                 tail=ast.unparse(last))
 
 
+def opmeta_form():
+    """what OpMeta.__init__ iterates over when it copies the subclass_register'ed patterns into a new op class"""
+    import ast
+    import inspect
+    import textwrap
+    from funsor.ops.op import OpMeta
+    tree = ast.parse((REPO / "funsor" / "ops" / "op.py").read_text())
+    fn = None
+    for node in ast.walk(tree):
+        if isinstance(node, ast.ClassDef) and node.name == "OpMeta":
+            for b in node.body:
+                if isinstance(b, ast.FunctionDef) and b.name == "__init__":
+                    fn = b
+    if fn is None:
+        return dict(whole_mro=False, iter="<OpMeta.__init__ not found>", inner="")
+    live = ast.parse(textwrap.dedent(inspect.getsource(OpMeta.__init__))).body[0]
+    same = [ast.dump(b) for b in live.body] == [ast.dump(b) for b in fn.body]
+    loops = [n for n in fn.body if isinstance(n, ast.For)]
+    if len(loops) != 1 or not loops[0].body or not isinstance(loops[0].body[0], ast.For):
+        return dict(whole_mro=False, iter="<unexpected shape>", inner="")
+    it, inner = ast.unparse(loops[0].iter), ast.unparse(loops[0].body[0].iter)
+    var = ast.unparse(loops[0].target)
+    ok = same and it in ("reversed(inspect.getmro(cls))", "reversed(cls.__mro__)", "reversed(cls.mro())") \
+        and inner in (f"getattr({var}, '_subclass_registry', ())", f"getattr({var}, '_subclass_registry', [])")
+    return dict(whole_mro=bool(ok), iter=it, inner=inner)
+
+
 _STATE = {}
 
 
@@ -645,6 +672,11 @@ def _extract(ctx):
     k.append("/-- `PartialDispatcher.add` itself executes `self._cache.clear()` unconditionally -/")
     k.append(f"def addClearsCacheItself : Bool := {b_(af['itself'])}")
     k.append("def addClearsCache : Bool := (addDelegatesToDispatcherAdd && dispatcherAddClearsCache) || addClearsCacheItself\n")
+    om = opmeta_form()
+    k.append("/-- OpMeta.__init__ copies the subclass_register'ed patterns of `for supercls in " + om["iter"].replace("-/", "- /")[:120]
+             + "` / `" + om["inner"].replace("-/", "- /")[:120] + "` into every new op class -/")
+    k.append(f"def opMetaIteratesWholeMro : Bool := {b_(om['whole_mro'])}\n")
+    ctx.extra["opmeta_form"] = om
     ctx.extra["add_form"] = af
     k.append("end FV.Gen.C16\n")
     ch3 = write_if_changed(GEN / "C16Key.lean", "\n".join(k))
@@ -3084,6 +3116,97 @@ def part_adapter_relation(ctx, U, D, use_driver=True):
                     return
 
 
+# ----------------------------------------------------------------------------------------
+# op classes created DURING the run from every `.make` base (MRO depth 1, 2, 3, 4)
+# ----------------------------------------------------------------------------------------
+
+PY_USEROP = """
+# replay for C16: an op made after import from base {base} must inherit the subclass_register'ed patterns of its whole MRO
+import inspect
+import funsor; funsor.set_backend("numpy")
+import funsor.ops as ops
+from funsor.terms import Variable, Funsor
+from funsor.domains import Real
+from funsor.interpretations import lazy
+ran = []
+{mk}
+x, y = Variable("x", Real), Variable("y", Real)
+with lazy:
+    r = {call}
+want = [p for k in reversed(inspect.getmro(type(op))) for p, _ in vars(k).get("_subclass_registry", ())]
+print(type(r), ran, len(type(op).dispatcher.funcs), "patterns; the MRO holds", len(want))
+FAILS = bool(ran) or not isinstance(r, Funsor) or getattr(r, "op", None) is not op
+"""
+
+
+def part_user_ops(ctx, U):
+    import inspect
+    import funsor.ops as ops
+    from funsor.ops.op import Op
+    from funsor.terms import Variable, Funsor, Unary, Binary, Finitary
+    from funsor.domains import Real
+    from funsor.interpretations import lazy, eager
+    x, y = Variable("x", Real), Variable("y", Real)
+    uid = ctx.rng.randrange(10 ** 8)
+    bases = [c for c in [Op] + all_subclasses(Op) if "dispatcher" not in vars(c) and isinstance(getattr(c, "arity", None), int)
+             and c.arity in (1, 2) and c.__module__.startswith("funsor.ops") and not issubclass(c, ops.op.FinitaryOp)]
+    plans = []     # (description, python source creating `op`, arity, finitary)
+    for B in sorted(bases, key=lambda c: c.__name__):
+        fin = issubclass(B, ops.op.FinitaryOp)
+        plans.append((B.__name__, f"op = ops.{B.__name__}.make(lambda *a: ran.append(a) or 'RAW', name='c16u_{B.__name__.lower()}_{{uid}}')"
+                      if hasattr(ops, B.__name__) else
+                      f"op = ops.op.{B.__name__}.make(lambda *a: ran.append(a) or 'RAW', name='c16u_{B.__name__.lower()}_{{uid}}')", B.arity, fin))
+        if not fin:
+            nm = B.__name__ if hasattr(ops, B.__name__) else "op." + B.__name__
+            # one level deeper: through an already made op class (a user-defined abstract base without
+            # its own dispatcher is not supported by OpMeta on the pinned tree either)
+            plans.append((B.__name__ + ">made>made", f"op0 = ops.{nm}.make(lambda *a: 'RAW0', name='c16m0_{B.__name__.lower()}_{{uid}}')\n"
+                          f"op = type(op0).make(lambda *a: ran.append(a) or 'RAW', name='c16m1_{B.__name__.lower()}_{{uid}}')", B.arity, fin))
+    for desc, mk, arity, fin in plans:
+        uid += 1
+        src = mk.replace("{uid}", str(uid))
+        ns = dict(ops=ops, ran=[])
+        try:
+            exec(src, ns)
+        except Exception as e:   # noqa
+            ctx.count(f"user-ops:make-raised:{desc}")
+            continue
+        op = ns["op"]
+        depth = len(inspect.getmro(type(op))) - 2
+        ctx.count(f"user-ops:made:mro-depth-{depth}")
+        # model: pattern set of a new op class = union over its WHOLE MRO of the subclass_register'ed patterns
+        want = [tuple(map(typing_wrap, p)) if not any(isinstance(t, list) for t in p) else None
+                for k in reversed(inspect.getmro(type(op))) for p, _ in vars(k).get("_subclass_registry", ())]
+        have = set(type(op).dispatcher.funcs)
+        missing = [p for p in want if p is not None and p not in have]
+        calls = ([("op((x, y))", lambda: op((x, y)), Finitary)] if fin else
+                 [("op(x)", lambda: op(x), Unary)] if arity == 1 else
+                 [("op(x, y)", lambda: op(x, y), Binary), ("op(x, 2.0)", lambda: op(x, 2.0), Binary), ("op(2.0, y)", lambda: op(2.0, y), Binary)])
+        for csrc, call, cls in calls:
+            for interp, iname in ((lazy, "lazy"), (eager, "eager")):
+                ns["ran"].clear()
+                try:
+                    with interp:
+                        r = call()
+                except Exception as e:   # noqa
+                    r = e
+                ctx.count("user-ops:calls")
+                if iname == "lazy":
+                    ok = isinstance(r, cls) and getattr(r, "op", None) is op and not ns["ran"]
+                else:       # eager may normalise the term (e.g. an associative Binary becomes a Contraction)
+                    ok = isinstance(r, Funsor) and not ns["ran"]
+                if not ok or missing:
+                    ctx.fail("input", "C16.user-op-misses-inherited-patterns",
+                             witness=dict(made_from=desc, mro=[k.__name__ for k in inspect.getmro(type(op))][:6], call=csrc, interpretation=iname,
+                                          result=repr(r)[:120], raw_default_body_ran=bool(ns["ran"]),
+                                          patterns_registered=len(have), patterns_missing=[repr(p)[:80] for p in missing][:4]),
+                             expected=f"a lazy {cls.__name__} term with .op is op (rule inherited through the MRO); the default body does not run",
+                             got=repr(r)[:120],
+                             python=PY_USEROP.format(base=desc, mk=src, call=csrc))
+                    return
+        ctx.case(nontrivial_key=("user-op", desc))
+
+
 def part_known_ambiguity(ctx, U, D, kf_cases):
     """dedicated stream for KF-precondition-ambiguous-patterns: two registered patterns overlap, neither
     is more specific, nothing more specific covers the overlap"""
@@ -3220,6 +3343,7 @@ def _correspond(ctx):
     guarded(ctx, "container-registries", part_container_registries, ctx, U)
     guarded(ctx, "deep-type-values", part_deep_type_values, ctx, U)
     guarded(ctx, "register-histories", part_register_histories, ctx, U)
+    guarded(ctx, "user-ops", part_user_ops, ctx, U)
     kf_cases = []
     r = guarded(ctx, "dispatch", part_dispatch, ctx, U, D, observed, kf_cases=kf_cases)
     guarded(ctx, "known-ambiguity", part_known_ambiguity, ctx, U, D, kf_cases)
@@ -3281,6 +3405,9 @@ def search(ctx, broken):
         if found():
             return
         quiet(part_register_histories, ctx, U, use_driver=False)
+        if found():
+            return
+        quiet(part_user_ops, ctx, U)
         if found():
             return
         r = quiet(part_dispatch, ctx, U, D, observed, use_driver=False)
